@@ -74,7 +74,7 @@ Proof.
 Qed.
 
 Theorem no_secret_survives : forall secrets chunks p,
-  In p secrets -> rp_min_len P <= length p -> has_inner_newline p = false -> indep ph p = true ->
+  In p secrets -> rp_min_len P <= length p -> has_inner_newline p = false -> ph_clash ph p = false ->
   ~ occurs p (run P secrets chunks).
 Proof.
   intros secrets chunks p Hin Hlen Hnl Hind. rewrite run_is_emit.
